@@ -1,0 +1,36 @@
+//! Verification hooks (cargo feature `verif_hooks`, off by default).
+//!
+//! These let a user-space harness observe and drive code paths that cannot be reached without
+//! ring 0. They add no behaviour when the feature is disabled.
+
+use core::sync::atomic::{AtomicU64, Ordering};
+
+/// Bits of RFLAGS that are taken from `RFLAGS_OVERLAY_VALUE` instead of the real register when
+/// `rflags::read_raw` is called (default 0: identity).
+pub static RFLAGS_OVERLAY_MASK: AtomicU64 = AtomicU64::new(0);
+/// Values of the overlaid RFLAGS bits.
+pub static RFLAGS_OVERLAY_VALUE: AtomicU64 = AtomicU64::new(0);
+/// Bits of a value given to `rflags::write_raw` that are really loaded with `popfq`; the other
+/// bits of the loaded value are taken from the real register (default: all bits are loaded).
+pub static RFLAGS_WRITE_MASK: AtomicU64 = AtomicU64::new(u64::MAX);
+/// The last value given to `rflags::write_raw`.
+pub static RFLAGS_LAST_WRITTEN: AtomicU64 = AtomicU64::new(0);
+/// Number of calls of `rflags::write_raw`.
+pub static RFLAGS_WRITE_COUNT: AtomicU64 = AtomicU64::new(0);
+
+/// Applied to the value `pushfq` produced in `rflags::read_raw`.
+#[inline]
+pub fn rflags_overlay(real: u64) -> u64 {
+    let mask = RFLAGS_OVERLAY_MASK.load(Ordering::Relaxed);
+    (real & !mask) | (RFLAGS_OVERLAY_VALUE.load(Ordering::Relaxed) & mask)
+}
+
+/// Applied to the value about to be loaded by `popfq` in `rflags::write_raw`; records it and
+/// returns the value that is really loaded.
+#[inline]
+pub fn rflags_written(val: u64, real: u64) -> u64 {
+    RFLAGS_LAST_WRITTEN.store(val, Ordering::Relaxed);
+    RFLAGS_WRITE_COUNT.fetch_add(1, Ordering::Relaxed);
+    let mask = RFLAGS_WRITE_MASK.load(Ordering::Relaxed);
+    (val & mask) | (real & !mask)
+}
